@@ -25,6 +25,9 @@ func checkC02(p *Program, c *Check) {
 	sh := NewSharedInfo(p)
 	ruleSHR1(p, c, sh, funcs)
 	ruleSHR4(p, c)
+	// the constructors of the seeded generators, the handlers/registries, and the functions the tabled
+	// collect-then-sort map ranges rely on are compared with their references
+	ruleE5(p, c, 1)
 }
 
 func checkC10(p *Program, c *Check) {
@@ -42,6 +45,7 @@ func checkC10(p *Program, c *Check) {
 	ruleSHR4(p, c)
 	ruleND1(p, c, funcs)
 	ruleND2(p, c, funcs)
+	ruleE5(p, c, 1) // factories, constructors, handlers and registries against their references
 	c.Extra["shared_types"] = sortedKeys(sh.SharedTypes)
 }
 
